@@ -172,6 +172,22 @@ def _content_sink(repo: Repo, f: FuncInfo, node: ast.AST) -> str | None:
     return None
 
 
+def _fill_roles(f: FuncInfo) -> dict[str, set[str]]:
+    """Locals of TOC.fill by definition: index_body (read from self.body), outline (read from self.outline_level),
+    level (read from the heading's text:outline-level inside the headings loop)."""
+    r: dict[str, set[str]] = {"index_body": set(), "outline": set(), "level": set()}
+    for n in walk_no_nested(f.node):
+        if isinstance(n, ast.Assign) and len(n.targets) == 1 and isinstance(n.targets[0], ast.Name):
+            t, v = n.targets[0].id, n.value
+            if is_self_attr(v, "body"):
+                r["index_body"].add(t)
+            if any(is_self_attr(x, "outline_level") for x in ast.walk(v)):
+                r["outline"].add(t)
+            if any(isinstance(x, ast.Constant) and x.value == "text:outline-level" for x in ast.walk(v)):
+                r["level"].add(t)
+    return r
+
+
 def r20b(ctx):
     repo = ctx.repo
     ctx.rule("R20b", "fill() drops the old index body before the first append and keeps the title", floor=3)
@@ -179,8 +195,9 @@ def r20b(ctx):
     cfg = cfg_of(f)
     resets = [n for n in walk_no_nested(f.node) if isinstance(n, ast.Assign) and is_self_attr(n.targets[0], "body")
               and isinstance(n.value, ast.Constant) and n.value.value is None]
+    roles = _fill_roles(f)
     appends = [n for n in walk_no_nested(f.node) if isinstance(n, ast.Call) and call_name(n) in ("append", "insert")
-               and isinstance(n.func, ast.Attribute) and isinstance(n.func.value, ast.Name) and n.func.value.id == "index_body"]
+               and isinstance(n.func, ast.Attribute) and isinstance(n.func.value, ast.Name) and n.func.value.id in roles["index_body"]]
     if not appends:
         raise AnalysisError("R20b: index_body.append/insert not found in TOC.fill")
     ok = bool(resets) and all(cfg.dominates(node_of(cfg, resets[0]), node_of(cfg, a)) for a in appends)
@@ -189,7 +206,7 @@ def r20b(ctx):
         ctx.report("R20b", f, appends[0], "index_body written before self.body = None",
                    "entries are appended to an index body that was not cleared first: filling twice duplicates the entries")
     # the variable appended to is re-read after the reset
-    reread = [n for n in walk_no_nested(f.node) if isinstance(n, ast.Assign) and isinstance(n.targets[0], ast.Name) and n.targets[0].id == "index_body"
+    reread = [n for n in walk_no_nested(f.node) if isinstance(n, ast.Assign) and isinstance(n.targets[0], ast.Name) and n.targets[0].id in roles["index_body"]
               and is_self_attr(n.value, "body")]
     ok2 = bool(resets) and any(cfg.dominates(node_of(cfg, resets[0]), node_of(cfg, r)) and all(cfg.dominates(node_of(cfg, r), node_of(cfg, a)) for a in appends)
                                for r in reread)
@@ -224,8 +241,9 @@ def r20c(ctx):
         ctx.report("R20c", f, f.node, f"{len(loops)} loops over headers", "the index is not built by a single pass over the headings in document order")
         return
     loop = loops[0]
+    roles = _fill_roles(f)
     apps = [n for n in ast.walk(loop) if isinstance(n, ast.Call) and call_name(n) == "append" and isinstance(n.func, ast.Attribute)
-            and isinstance(n.func.value, ast.Name) and n.func.value.id == "index_body"]
+            and isinstance(n.func.value, ast.Name) and n.func.value.id in roles["index_body"]]
     ok = len(apps) == 1 and enclosing_loops(apps[0])[0] is loop if apps else False
     ctx.instance("R20c", f"{f.file}:{f.ident}", "one append per heading, directly in the headings loop", ok=ok)
     if not ok:
@@ -233,25 +251,26 @@ def r20c(ctx):
         return
     guards = structural_guards(apps[0], stop=loop)
     lvl_guard = [t for t, pol in guards if not pol and any(isinstance(c, ast.Compare) and isinstance(c.ops[0], ast.Gt)
-                                                          and ast.unparse(c.comparators[0]) == "outline_level" for c in ast.walk(t))]
+                                                          and isinstance(c.comparators[0], ast.Name) and c.comparators[0].id in roles["outline"]
+                                                          and isinstance(c.left, ast.Name) and c.left.id in roles["level"] for c in ast.walk(t))]
     okg = len(lvl_guard) == 1 and len(guards) == 1
     ctx.instance("R20c", f"{f.file}:{f.ident}", f"append guarded only by not ({norm(lvl_guard[0], 50) if lvl_guard else '?'})", ok=okg, nontrivial=True)
     if not okg:
         ctx.report("R20c", f, apps[0], f"guards {[norm(t, 40) for t, _ in guards]}",
                    "the entry append is not guarded by exactly the level filter `level > outline_level -> continue`")
-    src = [n for n in walk_no_nested(f.node) if isinstance(n, ast.Assign) and isinstance(n.targets[0], ast.Name) and n.targets[0].id == "outline_level"]
-    oks = bool(src) and any(is_self_attr(x, "outline_level") for x in ast.walk(src[0].value))
+    oks = bool(roles["outline"]) and bool(lvl_guard)
     ctx.instance("R20c", f"{f.file}:{f.ident}", "outline_level read from the TOC source element (self.outline_level)", ok=oks)
     if not oks:
         ctx.report("R20c", f, f.node, "outline_level source", "the level filter does not use the outline level stored in the TOC")
-    lv = [n for n in ast.walk(loop) if isinstance(n, ast.Assign) and isinstance(n.targets[0], ast.Name) and n.targets[0].id == "level"]
-    okl = bool(lv) and "text:outline-level" in ast.unparse(lv[0].value) and "header" in ast.unparse(lv[0].value)
+    hv = loop.target.id if isinstance(loop.target, ast.Name) else None
+    lv = [n for n in ast.walk(loop) if isinstance(n, ast.Assign) and isinstance(n.targets[0], ast.Name) and n.targets[0].id in roles["level"]]
+    okl = bool(lv) and any(isinstance(x, ast.Name) and x.id == hv for x in ast.walk(lv[0].value))
     ctx.instance("R20c", f"{f.file}:{f.ident}", "level read from the heading's text:outline-level", ok=okl)
     if not okl:
         ctx.report("R20c", f, loop, "level source", "the heading level is not read from text:outline-level of the heading")
     # same level drives numbering and style
     num = [n for n in ast.walk(loop) if isinstance(n, ast.Call) and call_name(n) == "_header_numbering"]
-    okn = bool(num) and len(num[0].args) == 2 and ast.unparse(num[0].args[1]) == "level"
+    okn = bool(num) and len(num[0].args) == 2 and isinstance(num[0].args[1], ast.Name) and num[0].args[1].id in roles["level"]
     ctx.instance("R20c", f"{f.file}:{f.ident}", "numbering called with the heading's level", ok=okn)
     if not okn:
         ctx.report("R20c", f, loop, "numbering level", "the hierarchical number is not computed from the heading's level")
@@ -279,24 +298,43 @@ def r20c(ctx):
 
 def _numbering_consts(repo: Repo, f: FuncInfo) -> dict:
     out: dict = {"reset_loop": False}
+    # the heading level: a parameter called `level`, or the local read from text:outline-level
+    lvl = {a.arg for a in f.all_params() if a.arg == "level"}
+    for n in walk_no_nested(f.node):
+        if isinstance(n, ast.Assign) and len(n.targets) == 1 and isinstance(n.targets[0], ast.Name) \
+                and any(isinstance(x, ast.Constant) and x.value == "text:outline-level" for x in ast.walk(n.value)):
+            lvl.add(n.targets[0].id)
+
+    def canon_level(e: ast.AST) -> str:
+        import copy
+        c = copy.deepcopy(e)
+        for x in ast.walk(c):
+            if isinstance(x, ast.Name) and x.id in lvl:
+                x.id = "level"
+        return ast.unparse(c)
+
+    wvars = set()
+    for n in walk_no_nested(f.node):
+        if isinstance(n, ast.While) and isinstance(n.test, ast.Compare) and isinstance(n.test.ops[0], ast.In) and isinstance(n.test.left, ast.Name):
+            wvars.add(n.test.left.id)
     for n in walk_no_nested(f.node):
         if isinstance(n, ast.Call) and call_name(n) == "setdefault" and len(n.args) == 2:
             out["missing_upper_default"] = repo.fold(n.args[1], f.module)
         if isinstance(n, ast.BinOp) and isinstance(n.op, ast.Add) and isinstance(n.left, ast.Call) and call_name(n.left) == "get" and len(n.left.args) == 2:
             out["increment"] = (repo.fold(n.left.args[1], f.module), repo.fold(n.right, f.module))
         if isinstance(n, ast.Call) and call_name(n) == "range" and len(n.args) == 2:
-            out["upper_range"] = (repo.fold(n.args[0], f.module), ast.unparse(n.args[1]))
+            out["upper_range"] = (repo.fold(n.args[0], f.module), canon_level(n.args[1]))
         if isinstance(n, ast.While) and isinstance(n.test, ast.Compare) and isinstance(n.test.ops[0], ast.In):
             if any(isinstance(s, ast.Delete) for s in n.body) and any(isinstance(s, ast.AugAssign) for s in n.body):
                 out["reset_loop"] = True
-        if isinstance(n, ast.Assign) and isinstance(n.targets[0], ast.Name) and n.targets[0].id == "idx" and isinstance(n.value, ast.BinOp):
-            out["reset_from"] = ast.unparse(n.value)
+        if isinstance(n, ast.Assign) and isinstance(n.targets[0], ast.Name) and n.targets[0].id in wvars and isinstance(n.value, ast.BinOp):
+            out["reset_from"] = canon_level(n.value)
         if isinstance(n, ast.Return) and n.value is not None and not (isinstance(n.value, ast.Constant)):
             ps = n.value
             if isinstance(ps, ast.BinOp) and isinstance(ps.op, ast.Add) and isinstance(ps.left, ast.Call) and call_name(ps.left) == "join":
                 out["separator"] = repo.fold(ps.left.func.value, f.module)
                 out["suffix"] = repo.fold(ps.right, f.module)
-        if isinstance(n, ast.Assign) and isinstance(n.targets[0], ast.Subscript) and ast.unparse(n.targets[0].slice) == "level":
+        if isinstance(n, ast.Assign) and isinstance(n.targets[0], ast.Subscript) and isinstance(n.targets[0].slice, ast.Name) and n.targets[0].slice.id in lvl:
             out["stores_level_counter"] = True
     return out
 
